@@ -21,6 +21,11 @@ structure Params where
   bst      : Int            -- breakSegmentThreshold
 deriving Repr, Inhabited
 
+/-- the defaults of `src/args.py` (-sp 1000, -dp 1, -su -250, -d 1500, -ms 1000, -bs 1200); the harness compares them,
+    and the defaults of `SecCfg` / `ChainCfg` / `Cfg`, with the objects the real `Args.parse` +
+    `WorkflowCoordinatorFactory.create` build from an argument list without options (op DEFAULTS) -/
+def defaultParams : Params := ⟨1000, 1, -250, 1500, 1000, 1200⟩
+
 /-- alignment_position.py:133-136 and 26-30 (the ValueError branch is `scoreAll?`) -/
 def APos.score (P : Params) : APos → Int
   | .pair p => P.sp - P.dp * p.dist
